@@ -183,6 +183,68 @@ pub fn verify(p: &CaoCompiledProgram, obs: &mut Obs) -> Result<(), (String, Stri
             return e("trace-key", format!("trace entry for offset {k}, which is not the first byte of an instruction"));
         }
     }
+    // closures: `Goto END; L: body ... Return; END: Closure handle arity; (CopyLast RegisterUpvalue idx is_local)*`
+    // every upvalue access inside a closure body uses an index below the number of upvalues that closure registers;
+    // a RegisterUpvalue that forwards an upvalue of the enclosing closure (is_local = 0) names one the enclosing closure has
+    let label_pos: BTreeMap<u32, usize> = p.labels.0.iter().map(|(h, l)| (h.value(), l.pos as usize)).collect();
+    let mut ranges: Vec<(usize, usize, usize, Vec<(usize, u8, u8)>)> = Vec::new(); // (body start, Closure instr pos, registered, registrations)
+    for (n, (pos, op)) in instrs.iter().copied().enumerate() {
+        if OPS[op].0 != "Closure" {
+            continue;
+        }
+        let h = u32_at(bc, pos + 1);
+        let start = label_pos[&h];
+        let mut regs = Vec::new();
+        let mut m = n + 1;
+        while m + 1 < instrs.len() && OPS[instrs[m].1].0 == "CopyLast" && OPS[instrs[m + 1].1].0 == "RegisterUpvalue" {
+            let rp = instrs[m + 1].0;
+            regs.push((rp, bc[rp + 1], bc[rp + 2]));
+            m += 2;
+        }
+        if start >= pos {
+            return e("closure-layout", format!("Closure at offset {pos}: its body (label at {start}) does not precede it"));
+        }
+        ranges.push((start, pos, regs.len(), regs));
+    }
+    let innermost = |q: usize| -> Option<usize> {
+        let mut best: Option<usize> = None;
+        for (i, (a, b, _, _)) in ranges.iter().enumerate() {
+            if *a <= q && q < *b && best.map(|j| ranges[j].1 - ranges[j].0 > b - a).unwrap_or(true) {
+                best = Some(i);
+            }
+        }
+        best
+    };
+    for (pos, op) in instrs.iter().copied() {
+        let name = OPS[op].0;
+        if name == "ReadUpvalue" || name == "SetUpvalue" {
+            let idx = u32_at(bc, pos + 1) as usize;
+            match innermost(pos) {
+                None => return e("upvalue-outside-closure", format!("{name} at offset {pos} is not inside the body of any closure")),
+                Some(r) => {
+                    if idx >= ranges[r].2 {
+                        return e("upvalue-index", format!("{name} at offset {pos} uses upvalue {idx}, the closure created at offset {} registers {} upvalues", ranges[r].1, ranges[r].2));
+                    }
+                }
+            }
+            obs.inc("upvalue_accesses_checked");
+        }
+    }
+    for (_, cpos, _, regs) in ranges.iter() {
+        for (rp, idx, is_local) in regs.iter().copied() {
+            if is_local == 0 {
+                match innermost(*cpos) {
+                    None => return e("upvalue-forward", format!("RegisterUpvalue at offset {rp} forwards upvalue {idx} of the enclosing closure, but the Closure at offset {cpos} is not inside a closure body")),
+                    Some(r) => {
+                        if idx as usize >= ranges[r].2 {
+                            return e("upvalue-forward", format!("RegisterUpvalue at offset {rp} forwards upvalue {idx}, the enclosing closure (created at offset {}) registers {}", ranges[r].1, ranges[r].2));
+                        }
+                    }
+                }
+                obs.inc("upvalue_forwards_checked");
+            }
+        }
+    }
     // ids <-> names
     let mut seen_ids = BTreeSet::new();
     let mut by_id: BTreeMap<u32, u32> = BTreeMap::new();
@@ -200,9 +262,39 @@ pub fn verify(p: &CaoCompiledProgram, obs: &mut Obs) -> Result<(), (String, Stri
         match p.variables.names.get(Handle::from_u32(*idv)) {
             None => return e("variables", format!("global id {idv} has no name entry")),
             Some(n) => {
-                let hn: Handle = n.as_str().into();
-                if hn.value() != *h {
-                    return e("variables", format!("global id {idv} is named {n:?}, whose handle {} is not the handle {h} that maps to the id", hn.value()));
+                // the handle is the name's hash, or - when that one belongs to a different name - the hash of a later probe
+                let fnv = |bytes: &[u8]| -> u32 {
+                    let mut x: u32 = 2166136261;
+                    for b in bytes {
+                        x = (x ^ *b as u32).wrapping_mul(16777619);
+                    }
+                    if x == 0 {
+                        0x9E3779B9
+                    } else {
+                        x
+                    }
+                };
+                let mut attempt = 0u32;
+                loop {
+                    let hv = if attempt == 0 {
+                        fnv(n.as_bytes())
+                    } else {
+                        let mut b = n.as_bytes().to_vec();
+                        b.extend([0xff, attempt as u8]);
+                        fnv(&b)
+                    };
+                    if hv == *h {
+                        break;
+                    }
+                    // an earlier probe may only be skipped because another name holds it
+                    let taken_by_other = by_id.iter().any(|(oid, oh)| *oh == hv && oid != idv);
+                    if !taken_by_other || attempt >= 255 {
+                        return e("variables", format!("global id {idv} is named {n:?}; probe {attempt} of that name is handle {hv}, which is not the handle {h} that maps to the id and is not held by another name"));
+                    }
+                    attempt += 1;
+                }
+                if attempt > 0 {
+                    obs.inc("colliding_global_names");
                 }
                 if p.variable_id(n).map(|v| bytemuck::cast::<_, u32>(v)) != Some(*idv) {
                     return e("variables", format!("variable_id({n:?}) does not return {idv}"));
@@ -227,6 +319,13 @@ impl Engine for BytecodeEngine {
     type Case = Case;
     fn name(&self) -> &'static str {
         "bytecode"
+    }
+    fn describe(&self, case: &Self::Case) -> serde_json::Value {
+        let mut v = serde_json::to_value(case).unwrap_or(serde_json::Value::Null);
+        if let Some(o) = v.as_object_mut() {
+            o.insert("module".into(), serde_json::Value::String(crate::pp::module(&case.module, "")));
+        }
+        v
     }
     fn self_check(&mut self, _obs: &mut Obs) -> Result<(), String> {
         let theirs = verif_instruction_table();
